@@ -151,7 +151,26 @@ class ShortReader(io.RawIOBase):
 PARSERS = {}
 
 
-def parse_high(FP, body, boundary, buffer_size=None, short=None, max_form_parts=None):
+class FailingReader(io.RawIOBase):
+    """Hands out its data and then either ends (a truncated request) or raises ConnectionResetError."""
+
+    def __init__(self, data, fail):
+        self.data, self.pos, self.fail = data, 0, fail
+
+    def readable(self):
+        return True
+
+    def read(self, n=-1):
+        if n is None or n < 0:
+            n = len(self.data)
+        out = self.data[self.pos:self.pos + n]
+        self.pos += len(out)
+        if not out and self.fail:
+            raise ConnectionResetError("client went away")
+        return out
+
+
+def parse_high(FP, body, boundary, buffer_size=None, short=None, max_form_parts=None, poison=0):
     try:
         stream = ShortReader(body, short) if short else io.BytesIO(body)
         kw = {} if buffer_size is None else {"buffer_size": buffer_size}
@@ -159,6 +178,14 @@ def parse_high(FP, body, boundary, buffer_size=None, short=None, max_form_parts=
         if parser is None:
             # history: one parser object per buffer size serves every body of the run (a parse leaves nothing behind)
             parser = PARSERS[buffer_size] = FP.MultiPartParser(**kw)
+        if poison and len(body) > 8:
+            # history + fault: the same parser object first serves a request with the same boundary that is cut off
+            # (or whose stream fails) somewhere in the middle; what it leaves behind must not reach the next request
+            cut = poison % (len(body) - 1) + 1
+            try:
+                parser.parse(FailingReader(body[:cut], fail=poison % 2 == 0), boundary, len(body))
+            except Exception:  # noqa: BLE001 - that request is lost, as it should be
+                pass
         form, files = parser.parse(stream, boundary, len(body))
         res = []
         for k, v in form.items(multi=True):
@@ -261,6 +288,12 @@ def run(shard, rec, rng):
         },
     )
     cfg = TIERS[shard["_tier"]]
+    if shard["index"] % 4 == 0:
+        # schedule: the arrival schedules of two requests interleave on one parser object (each read of one request is
+        # followed by a read of the other); every request gets its own parts
+        from . import c02_form_roundtrip as C2
+
+        C2.concurrent_shared_parser(C2._world(), rec, rng, 3, prefix="C01")
     for parts, bnd, nl_name, pre, epi, pad in corpus(rng, cfg, shard["index"], shard["of"]):
         built = G.build(parts, bnd, G.NLS[nl_name], pre, epi, pad=pad)
         if pad:
@@ -361,7 +394,10 @@ def check_body(M, FP, rec, rng, cfg, body, cls, bnd, expected, case_base):
     sizes = range(1, n + 2) if n <= cfg["parser_full_max"] else sorted(set(rng.sample(range(1, n + 2), cfg["parser_full_max"])))
     for bs in sizes:
         rec.case()
-        got = parse_high(FP, body, bnd, buffer_size=bs)
+        poison = (bs * 7919 + n) if bs % 5 == 0 else 0
+        if poison:
+            rec.observe("parses_after_a_failed_parse_on_the_same_parser")
+        got = parse_high(FP, body, bnd, buffer_size=bs, poison=poison)
         if multi or True:
             rec.nontrivial(hash((bid, "bs", bs)) & 0xFFFFFFFFFFFFFFFF)
         case = dict(case_base, mode="parser-buffer-size", buffer_size=bs)
